@@ -184,6 +184,10 @@ def Online.queue (cfg : Cfg) (now : Nat) (o : Online) (data : Bytes) (vital : Bo
       | .error e => .error e
       | .ok p => .ok { o with packet := p, packetNonvital := pn }
 
+/-- the payload lengths `Connection::send` accepts (`TooLongData` otherwise) -/
+def Cfg.accepts (cfg : Cfg) (len : Nat) : Bool :=
+  !(decide (len > maxPayload) || (cfg.sendChecksLim && decide (len ≥ cfg.chunkLim)))
+
 inductive SendRes where
   | ok | tooLongData
 deriving Repr, DecidableEq
@@ -191,7 +195,7 @@ deriving Repr, DecidableEq
 /-- `Connection::send`, online part -/
 def Online.send (cfg : Cfg) (now : Nat) (o : Online) (data : Bytes) (vital : Bool) :
     Except Fail (Online × SendRes × List Flushed) :=
-  if data.length > maxPayload || (cfg.sendChecksLim && data.length ≥ cfg.chunkLim) then .ok (o, .tooLongData, [])
+  if !cfg.accepts data.length then .ok (o, .tooLongData, [])
   else
     let (o1, fl) := if !o.packet.canFit data.length vital then o.flush else (o, [])
     match o1.queue cfg now data vital with
@@ -199,8 +203,43 @@ def Online.send (cfg : Cfg) (now : Nat) (o : Online) (data : Bytes) (vital : Boo
     | .ok o2 => .ok (o2, .ok, fl)
 
 /-- the `while i < len` loop of `Connection::resend`: `todo` are the chunks still to place, oldest
-first; `send` is the connection's send timer.  Fuel `2·|todo| + 2` is enough whenever the loop
-terminates at all (each chunk needs at most one flush before it fits an empty packet). -/
+first; `send` is the connection's send timer.  Like `send`: make room if the chunk does not fit, then
+queue it unconditionally.  Structural recursion: one chunk is placed per iteration. -/
+def resendLoop (cfg : Cfg) (now : Nat) : List ResendChunk → Online → Timeout → List Flushed →
+    Except Fail (Online × Timeout × List Flushed)
+  | [], o, send, acc => .ok (o, send, acc)
+  | c :: rest, o, send, acc =>
+    let fits := o.packet.canFit c.data.length true
+    let o1 := if fits then o else o.flush.1
+    let send1 := if fits then send else Timeout.after now sendUs
+    let acc1 := if fits then acc else acc ++ o.flush.2
+    match o1.packet.writeChunk cfg c.data (some (c.seq, true)) with
+    | .error e => .error e
+    | .ok p => resendLoop cfg now rest { o1 with packet := p } send1 acc1
+
+/-- `ResendChunk::start_timeout` -/
+def ResendChunk.restart (now : Nat) (c : ResendChunk) : ResendChunk :=
+  { c with nextSend := Timeout.after now resendUs }
+
+/-- start of `Connection::resend`: the packet is rebuilt from the retained non-vital part, every
+unacknowledged chunk gets a fresh timer -/
+def Online.resendStart (now : Nat) (o : Online) : Online :=
+  { o with packet := o.packetNonvital, resendQueue := o.resendQueue.map (ResendChunk.restart now) }
+
+/-- `Connection::resend` -/
+def Online.resend (cfg : Cfg) (now : Nat) (o : Online) (send : Timeout) :
+    Except Fail (Online × Timeout × List Flushed) :=
+  if o.resendQueue.isEmpty then .ok (o, send, [])
+  else
+    resendLoop cfg now (o.resendStart now).resendQueue.reverse (o.resendStart now) send []
+
+/-! ### The loop before the repair (defect D4), kept for the witness theorem of C02
+
+Before commit "fix: Connection::resend looped forever …" the loop only advanced when the chunk
+fitted and otherwise flushed and retried; a chunk that does not fit an empty packet was retried
+forever.  With fuel, running out of fuel is `Fail.hang`. -/
+namespace Unfixed
+
 def resendLoop (cfg : Cfg) (now : Nat) : Nat → List ResendChunk → Online → Timeout → List Flushed →
     Except Fail (Online × Timeout × List Flushed)
   | _, [], o, send, acc => .ok (o, send, acc)
@@ -214,14 +253,16 @@ def resendLoop (cfg : Cfg) (now : Nat) : Nat → List ResendChunk → Online →
       let (o1, fl) := o.flush
       resendLoop cfg now fuel (c :: rest) o1 (Timeout.after now sendUs) (acc ++ fl)
 
-/-- `Connection::resend` -/
-def Online.resend (cfg : Cfg) (now : Nat) (o : Online) (send : Timeout) :
-    Except Fail (Online × Timeout × List Flushed) :=
-  if o.resendQueue.isEmpty then .ok (o, send, [])
-  else
-    let rq := o.resendQueue.map fun c => { c with nextSend := Timeout.after now resendUs }
-    let o1 := { o with packet := o.packetNonvital, resendQueue := rq }
-    resendLoop cfg now (2 * rq.length + 2) rq.reverse o1 send []
+/-- one iteration of the old loop body on a non-empty todo list: the new todo list and state -/
+def resendStep (cfg : Cfg) (c : ResendChunk) (rest : List ResendChunk) (o : Online) :
+    Except Fail (List ResendChunk × Online) :=
+  if o.packet.canFit c.data.length true then
+    match o.packet.writeChunk cfg c.data (some (c.seq, true)) with
+    | .error e => .error e
+    | .ok p => .ok (rest, { o with packet := p })
+  else .ok (c :: rest, o.flush.1)
+
+end Unfixed
 
 /-- the retransmission deadline `needs_tick` and `tick` look at: the oldest unacked chunk's -/
 def Online.resendDeadline (o : Online) : Timeout :=
